@@ -275,6 +275,14 @@ def c11(p, ctx):
                 if moe is not None and se is not None and moe.shape == se.shape:
                     ok, det = cmp.same(moe, Z * se)
                     p.check("i_moe_is_z_se", ok, "c11/%s_proportions_moe" % d, det)
+            if prop is not None and prop.shape == var.shape:
+                und = np.isnan(prop)
+                bad = [nm for nm, a in ((vn, var), (sdn, sd), (sen, se), (moen, moe))
+                       if a is not None and a.shape == und.shape
+                       and not bool(np.all(np.isnan(a[und])))]
+                p.check("i_nan_where_proportion_undefined", not bad,
+                        "c11/%s/defined_where_proportion_is_not" % d,
+                        None if not bad else {"measures": bad})
             # ordinary cells: p (1 - p)
             if prop is not None and prop.shape == var.shape:
                 ordinary = np.ones(var.shape, dtype=bool)
